@@ -192,17 +192,10 @@ pub fn run(ctx: &Ctx, rep: &mut Report) {
                     msb,
                     tokens: boundary_tokens(n, msb),
                 };
-                match shard_oracle(&c) {
-                    Ok(info) => st.record(hash_of(&(n, msb)), &info, || serde_json::json!({"nr_shards": n, "msb": msb, "tokens": c.tokens.len()})),
-                    Err((sig, msg)) => fails.push((sig, msg, serde_json::to_value(&c).unwrap())),
-                }
+                eval_direct(&mut st, &mut fails, &c, shard_oracle);
             }
         }
-        rep.sub("shard_of_exhaustive").merge(st);
-        rep.sub_exhaustive.insert("shard_of_exhaustive".into(), true);
-        for (s, m, c) in fails.into_iter().take(3) {
-            rep.fail("shard_of_exhaustive", &s, &m, c);
-        }
+        finish_direct(rep, "shard_of_exhaustive", st, fails, true);
     }
     {
         // all ranges within windows [base, base+W] for a few bases, all shard counts 1..=12 + some
@@ -220,24 +213,13 @@ pub fn run(ctx: &Ctx, rep: &mut Report) {
                                 lo: lo as u16,
                                 hi: hi as u16,
                             };
-                            match port_oracle(&c) {
-                                Ok(info) => st.record(hash_of(&(n, shard, lo, hi)), &info, || serde_json::to_value(&c).unwrap()),
-                                Err((sig, msg)) => {
-                                    if fails.len() < 3 {
-                                        fails.push((sig, msg, serde_json::to_value(&c).unwrap()))
-                                    }
-                                }
-                            }
+                            eval_direct(&mut st, &mut fails, &c, port_oracle);
                         }
                     }
                 }
             }
         }
-        rep.sub("ports_exhaustive").merge(st);
-        rep.sub_exhaustive.insert("ports_exhaustive".into(), true);
-        for (s, m, c) in fails {
-            rep.fail("ports_exhaustive", &s, &m, c);
-        }
+        finish_direct(rep, "ports_exhaustive", st, fails, true);
     }
     let cases = ctx.tier.pick(100_000, 10_000_000);
     run_prop_par(
